@@ -28,6 +28,8 @@ type tcase struct {
 	Code   uint32 `json:"code"`   // exit code handed to CloseWithExitCode
 	// HostPanics: host functions that get an error from a nested guest call propagate it by panic (else they return normally).
 	HostPanics bool `json:"host_panics,omitempty"`
+	// WithStack: the entry call is made with api.Function.CallWithStack instead of Call.
+	WithStack bool `json:"with_stack,omitempty"`
 }
 
 func (tc tcase) wantCode() uint32 {
@@ -90,6 +92,7 @@ type tres struct {
 	HostBad     []string `json:"host_bad,omitempty"`   // nested guest calls that did not fail after close
 	NestedErrs  []string `json:"nested_errs,omitempty"`
 	Skipped     string   `json:"skipped,omitempty"`
+	CtxErr      string   `json:"ctx_err,omitempty"` // ctx.Err() when the call returned
 	Wasm        []string `json:"wasm_hex,omitempty"`
 }
 
@@ -438,7 +441,15 @@ func runTicked(tc tcase, keepWasm bool) *tres {
 				st.fire(mod)
 			}
 		}
-		_, callErr = mod.ExportedFunction("run").Call(st.ctx)
+		if tc.WithStack {
+			callErr = mod.ExportedFunction("run").CallWithStack(st.ctx, make([]uint64, 1))
+		} else {
+			_, callErr = mod.ExportedFunction("run").Call(st.ctx)
+		}
+	}
+	// what the context itself reports once the call is over (the exit code must follow it)
+	if err := st.ctx.Err(); err != nil {
+		res.CtxErr = err.Error()
 	}
 	if prog.Start && tc.Moment < 0 {
 		res.Fired, res.FiredAt = true, -1
@@ -591,6 +602,10 @@ func runWatchdog(tc tcase, keepWasm bool) *wres {
 				subj = m
 			}
 			sch <- err
+			return
+		}
+		if tc.WithStack {
+			sch <- subj.ExportedFunction("run").CallWithStack(ctx, make([]uint64, 1))
 			return
 		}
 		_, err := subj.ExportedFunction("run").Call(ctx)
